@@ -302,6 +302,7 @@ func report(rr *RunResult, verbose bool, keep string) int {
 func main() {
 	// represent type aliases by the types they denote (heap families are keyed by type names)
 	os.Setenv("GODEBUG", "gotypesalias=0")
+	loadMemTables("/verif")
 	if len(os.Args) < 2 {
 		fmt.Fprintln(os.Stderr, "usage: govc verify|check ...")
 		os.Exit(2)
